@@ -18,7 +18,7 @@ from sim.world import Run
 
 ID = "C33"
 LEVEL = "exploration"
-RUNS = {"quick": 30000, "thorough": 400000}
+RUNS = {"quick": 30000, "thorough": 2400000}
 BUDGET = {"quick": 100.0, "thorough": 3300.0}
 RULE = ("one run = one seeded mix of incoming/outgoing/internal telegrams with planned send outcomes, raising callbacks "
         "and devices, a rate limit from {0,1,5,20,100}, and join()/stop() placed anywhere; non-trivial = at least one "
